@@ -136,7 +136,7 @@ def «___cds_wfs_end.params» : List String := ["node"]
 
 /-- `_cds_wfs_push` (include/urcu/static/wfstack.h) -/
 def «_cds_wfs_push» : Stmt :=
-  block [(.assign "s" (.var "u_stack")), (.assign "new_head" (.var "node")), (.prim (some "_t1") .uxchg [.fieldAddr (.var "s") "head", .var "new_head", .cst "CMM_SEQ_CST" (5)]), (.assign "old_head" (.var "_t1")), (.prim none .ustore [.fieldAddr (.var "node") "next", .var "old_head", .cst "CMM_RELEASE" (3)]), (.call (some "_t2") ["node"] [.var "old_head"] «___cds_wfs_end»), (.ret (some (.un .lnot (.var "_t2"))))]
+  block [(.assign "s" (.var "u_stack")), (.assign "new_head" (.var "node")), (.ifte (.pload (.addrGlob "CONFIG_RCU_EMIT_LEGACY_MB")) (.prim none .mb []) (.skip)), (.prim (some "_t1") .uxchg [.fieldAddr (.var "s") "head", .var "new_head", .cst "CMM_SEQ_CST" (5)]), (.assign "old_head" (.var "_t1")), (.prim none .ustore [.fieldAddr (.var "node") "next", .var "old_head", .cst "CMM_RELEASE" (3)]), (.call (some "_t2") ["node"] [.var "old_head"] «___cds_wfs_end»), (.ret (some (.un .lnot (.var "_t2"))))]
 def «_cds_wfs_push.params» : List String := ["u_stack", "node"]
 
 /-- `___cds_wfs_node_sync_next` (include/urcu/static/wfstack.h) -/
@@ -146,12 +146,12 @@ def «___cds_wfs_node_sync_next.params» : List String := ["node", "blocking"]
 
 /-- `___cds_wfs_pop` (include/urcu/static/wfstack.h) -/
 def «___cds_wfs_pop» : Stmt :=
-  block [(.assign "s" (.var "u_stack")), (.ifte (.var "state") (block [(.assign "_t1" (.lit 0)), (.pstore (.var "state") (.var "_t1"))]) (.skip)), (.loop (block [(.prim (some "_t2") .uload [.fieldAddr (.var "s") "head", .cst "CMM_CONSUME" (1)]), (.assign "head" (.var "_t2")), (.call (some "_t3") ["node"] [.var "head"] «___cds_wfs_end»), (.ifte (.var "_t3") (.ret (some (.null))) (.skip)), (.call (some "_t4") ["node", "blocking"] [.var "head", .var "blocking"] «___cds_wfs_node_sync_next»), (.assign "next" (.var "_t4")), (.ifte (.bin .land (.un .lnot (.var "blocking")) (.bin .eq (.var "next") (.cst "CDS_WFS_WOULDBLOCK" (-1)))) (.ret (some (.cst "CDS_WFS_WOULDBLOCK" (-1)))) (.skip)), (.assign "new_head" (.var "next")), (.prim (some "_t5") .ucmpxchg [.fieldAddr (.var "s") "head", .var "head", .var "new_head", .cst "CMM_SEQ_CST" (5), .cst "CMM_SEQ_CST" (5)]), (.ifte (.bin .eq (.var "_t5") (.var "head")) (block [(.ifte (.var "state") (block [(.call (some "_t6") ["node"] [.var "new_head"] «___cds_wfs_end»), (.assign "_t7" (.un .lnot (.un .lnot (.var "_t6"))))]) (.assign "_t7" (.lit 0))), (.ifte (.var "_t7") (block [(.assign "_t8" (.bin .bor (.pload (.var "state")) (.cst "CDS_WFS_STATE_LAST" (1)))), (.pstore (.var "state") (.var "_t8"))]) (.skip)), (.ret (some (.var "head")))]) (.skip)), (.ifte (.un .lnot (.var "blocking")) (.ret (some (.cst "CDS_WFS_WOULDBLOCK" (-1)))) (.skip))]))]
+  block [(.assign "s" (.var "u_stack")), (.ifte (.var "state") (block [(.assign "_t1" (.lit 0)), (.pstore (.var "state") (.var "_t1"))]) (.skip)), (.loop (block [(.prim (some "_t2") .uload [.fieldAddr (.var "s") "head", .cst "CMM_CONSUME" (1)]), (.assign "head" (.var "_t2")), (.call (some "_t3") ["node"] [.var "head"] «___cds_wfs_end»), (.ifte (.var "_t3") (.ret (some (.null))) (.skip)), (.call (some "_t4") ["node", "blocking"] [.var "head", .var "blocking"] «___cds_wfs_node_sync_next»), (.assign "next" (.var "_t4")), (.ifte (.bin .land (.un .lnot (.var "blocking")) (.bin .eq (.var "next") (.cst "CDS_WFS_WOULDBLOCK" (-1)))) (.ret (some (.cst "CDS_WFS_WOULDBLOCK" (-1)))) (.skip)), (.assign "new_head" (.var "next")), (.prim (some "_t5") .ucmpxchg [.fieldAddr (.var "s") "head", .var "head", .var "new_head", .cst "CMM_SEQ_CST" (5), .cst "CMM_SEQ_CST" (5)]), (.ifte (.bin .eq (.var "_t5") (.var "head")) (block [(.ifte (.var "state") (block [(.call (some "_t6") ["node"] [.var "new_head"] «___cds_wfs_end»), (.assign "_t7" (.un .lnot (.un .lnot (.var "_t6"))))]) (.assign "_t7" (.lit 0))), (.ifte (.var "_t7") (block [(.assign "_t8" (.bin .bor (.pload (.var "state")) (.cst "CDS_WFS_STATE_LAST" (1)))), (.pstore (.var "state") (.var "_t8"))]) (.skip)), (.ifte (.pload (.addrGlob "CONFIG_RCU_EMIT_LEGACY_MB")) (.prim none .mb []) (.skip)), (.ret (some (.var "head")))]) (.skip)), (.ifte (.un .lnot (.var "blocking")) (.ret (some (.cst "CDS_WFS_WOULDBLOCK" (-1)))) (.skip))]))]
 def «___cds_wfs_pop.params» : List String := ["u_stack", "state", "blocking"]
 
 /-- `___cds_wfs_pop_all` (include/urcu/static/wfstack.h) -/
 def «___cds_wfs_pop_all» : Stmt :=
-  block [(.assign "s" (.var "u_stack")), (.prim (some "_t1") .uxchg [.fieldAddr (.var "s") "head", .cst "CDS_WFS_END" (1), .cst "CMM_SEQ_CST" (5)]), (.assign "head" (.var "_t1")), (.call (some "_t2") ["node"] [.var "head"] «___cds_wfs_end»), (.ifte (.var "_t2") (.ret (some (.null))) (.skip)), (.ret (some (.var "head")))]
+  block [(.assign "s" (.var "u_stack")), (.prim (some "_t1") .uxchg [.fieldAddr (.var "s") "head", .cst "CDS_WFS_END" (1), .cst "CMM_SEQ_CST" (5)]), (.assign "head" (.var "_t1")), (.ifte (.pload (.addrGlob "CONFIG_RCU_EMIT_LEGACY_MB")) (.prim none .mb []) (.skip)), (.call (some "_t2") ["node"] [.var "head"] «___cds_wfs_end»), (.ifte (.var "_t2") (.ret (some (.null))) (.skip)), (.ret (some (.var "head")))]
 def «___cds_wfs_pop_all.params» : List String := ["u_stack"]
 
 /-- `_cds_wfs_empty` (include/urcu/static/wfstack.h) -/
@@ -166,17 +166,17 @@ def «___cds_lfs_empty_head.params» : List String := ["head"]
 
 /-- `_cds_lfs_push` (include/urcu/static/lfstack.h) -/
 def «_cds_lfs_push» : Stmt :=
-  block [(.assign "s" (.var "u_s")), (.assign "head" (.null)), (.assign "new_head" (.var "node")), (.loop (block [(.assign "old_head" (.var "head")), (.assign "_t1" (.var "head")), (.pstore (.fieldAddr (.var "node") "next") (.var "_t1")), (.prim (some "_t2") .ucmpxchg [.fieldAddr (.var "s") "head", .var "old_head", .var "new_head", .cst "CMM_SEQ_CST" (5), .cst "CMM_SEQ_CST" (5)]), (.assign "head" (.var "_t2")), (.ifte (.bin .eq (.var "old_head") (.var "head")) (.brk) (.skip))])), (.call (some "_t3") ["head"] [.var "head"] «___cds_lfs_empty_head»), (.ret (some (.un .lnot (.var "_t3"))))]
+  block [(.assign "s" (.var "u_s")), (.assign "head" (.null)), (.assign "new_head" (.var "node")), (.loop (block [(.assign "old_head" (.var "head")), (.assign "_t1" (.var "head")), (.pstore (.fieldAddr (.var "node") "next") (.var "_t1")), (.ifte (.pload (.addrGlob "CONFIG_RCU_EMIT_LEGACY_MB")) (.prim none .mb []) (.skip)), (.prim (some "_t2") .ucmpxchg [.fieldAddr (.var "s") "head", .var "old_head", .var "new_head", .cst "CMM_SEQ_CST" (5), .cst "CMM_SEQ_CST" (5)]), (.assign "head" (.var "_t2")), (.ifte (.bin .eq (.var "old_head") (.var "head")) (.brk) (.skip))])), (.call (some "_t3") ["head"] [.var "head"] «___cds_lfs_empty_head»), (.ret (some (.un .lnot (.var "_t3"))))]
 def «_cds_lfs_push.params» : List String := ["u_s", "node"]
 
 /-- `___cds_lfs_pop` (include/urcu/static/lfstack.h) -/
 def «___cds_lfs_pop» : Stmt :=
-  block [(.assign "s" (.var "u_s")), (.loop (block [(.prim (some "_t1") .uload [.fieldAddr (.var "s") "head", .cst "CMM_CONSUME" (1)]), (.assign "head" (.var "_t1")), (.call (some "_t2") ["head"] [.var "head"] «___cds_lfs_empty_head»), (.ifte (.var "_t2") (.ret (some (.null))) (.skip)), (.prim (some "_t3") .uload [.fieldAddr (.var "head") "next", .cst "CMM_RELAXED" (0)]), (.assign "next" (.var "_t3")), (.assign "next_head" (.var "next")), (.prim (some "_t4") .ucmpxchg [.fieldAddr (.var "s") "head", .var "head", .var "next_head", .cst "CMM_SEQ_CST" (5), .cst "CMM_SEQ_CST" (5)]), (.ifte (.bin .eq (.var "_t4") (.var "head")) (.ret (some (.var "head"))) (.skip))]))]
+  block [(.assign "s" (.var "u_s")), (.loop (block [(.prim (some "_t1") .uload [.fieldAddr (.var "s") "head", .cst "CMM_CONSUME" (1)]), (.assign "head" (.var "_t1")), (.call (some "_t2") ["head"] [.var "head"] «___cds_lfs_empty_head»), (.ifte (.var "_t2") (.ret (some (.null))) (.skip)), (.prim (some "_t3") .uload [.fieldAddr (.var "head") "next", .cst "CMM_RELAXED" (0)]), (.assign "next" (.var "_t3")), (.assign "next_head" (.var "next")), (.prim (some "_t4") .ucmpxchg [.fieldAddr (.var "s") "head", .var "head", .var "next_head", .cst "CMM_SEQ_CST" (5), .cst "CMM_SEQ_CST" (5)]), (.ifte (.bin .eq (.var "_t4") (.var "head")) (block [(.ifte (.pload (.addrGlob "CONFIG_RCU_EMIT_LEGACY_MB")) (.prim none .mb []) (.skip)), (.ret (some (.var "head")))]) (.skip))]))]
 def «___cds_lfs_pop.params» : List String := ["u_s"]
 
 /-- `___cds_lfs_pop_all` (include/urcu/static/lfstack.h) -/
 def «___cds_lfs_pop_all» : Stmt :=
-  block [(.assign "s" (.var "u_s")), (.prim (some "_t1") .uxchg [.fieldAddr (.var "s") "head", .null, .cst "CMM_SEQ_CST" (5)]), (.assign "head" (.var "_t1")), (.ret (some (.var "head")))]
+  block [(.assign "s" (.var "u_s")), (.prim (some "_t1") .uxchg [.fieldAddr (.var "s") "head", .null, .cst "CMM_SEQ_CST" (5)]), (.assign "head" (.var "_t1")), (.ifte (.pload (.addrGlob "CONFIG_RCU_EMIT_LEGACY_MB")) (.prim none .mb []) (.skip)), (.ret (some (.var "head")))]
 def «___cds_lfs_pop_all.params» : List String := ["u_s"]
 
 /-- `_cds_lfs_empty` (include/urcu/static/lfstack.h) -/
@@ -186,17 +186,17 @@ def «_cds_lfs_empty.params» : List String := ["s"]
 
 /-- `___cds_wfcq_append` (include/urcu/static/wfcqueue.h) -/
 def «___cds_wfcq_append» : Stmt :=
-  block [(.assign "head" (.var "u_head")), (.prim (some "_t1") .uxchg [.fieldAddr (.var "tail") "p", .var "new_tail", .cst "CMM_SEQ_CST" (5)]), (.assign "old_tail" (.var "_t1")), (.prim none .ustore [.fieldAddr (.var "old_tail") "next", .var "new_head", .cst "CMM_RELEASE" (3)]), (.ret (some (.bin .ne (.var "old_tail") (.fieldAddr (.var "head") "node"))))]
+  block [(.assign "head" (.var "u_head")), (.prim (some "_t1") .uxchg [.fieldAddr (.var "tail") "p", .var "new_tail", .cst "CMM_SEQ_CST" (5)]), (.assign "old_tail" (.var "_t1")), (.prim none .ustore [.fieldAddr (.var "old_tail") "next", .var "new_head", .cst "CMM_RELEASE" (3)]), (.ret (some (.bin .ne (.var "old_tail") (.var "head"))))]
 def «___cds_wfcq_append.params» : List String := ["u_head", "tail", "new_head", "new_tail"]
 
 /-- `_cds_wfcq_enqueue` (include/urcu/static/wfcqueue.h) -/
 def «_cds_wfcq_enqueue» : Stmt :=
-  block [(.call (some "_t1") ["u_head", "tail", "new_head", "new_tail"] [.var "head", .var "tail", .var "new_tail", .var "new_tail"] «___cds_wfcq_append»), (.ret (some (.var "_t1")))]
+  block [(.ifte (.pload (.addrGlob "CONFIG_RCU_EMIT_LEGACY_MB")) (.prim none .mb []) (.skip)), (.call (some "_t1") ["u_head", "tail", "new_head", "new_tail"] [.var "head", .var "tail", .var "new_tail", .var "new_tail"] «___cds_wfcq_append»), (.ret (some (.var "_t1")))]
 def «_cds_wfcq_enqueue.params» : List String := ["head", "tail", "new_tail"]
 
 /-- `_cds_wfcq_empty` (include/urcu/static/wfcqueue.h) -/
 def «_cds_wfcq_empty» : Stmt :=
-  block [(.assign "head" (.var "u_head")), (.prim (some "_t1") .uload [.fieldAddr (.fieldAddr (.var "head") "node") "next", .cst "CMM_CONSUME" (1)]), (.ifte (.bin .eq (.var "_t1") (.null)) (block [(.prim (some "_t2") .uload [.fieldAddr (.var "tail") "p", .cst "CMM_CONSUME" (1)]), (.assign "_t3" (.un .lnot (.un .lnot (.bin .eq (.var "_t2") (.fieldAddr (.var "head") "node")))))]) (.assign "_t3" (.lit 0))), (.ret (some (.var "_t3")))]
+  block [(.assign "head" (.var "u_head")), (.prim (some "_t1") .uload [.fieldAddr (.var "head") "next", .cst "CMM_CONSUME" (1)]), (.ifte (.bin .eq (.var "_t1") (.null)) (block [(.prim (some "_t2") .uload [.fieldAddr (.var "tail") "p", .cst "CMM_CONSUME" (1)]), (.assign "_t3" (.un .lnot (.un .lnot (.bin .eq (.var "_t2") (.var "head")))))]) (.assign "_t3" (.lit 0))), (.ret (some (.var "_t3")))]
 def «_cds_wfcq_empty.params» : List String := ["u_head", "tail"]
 
 /-- `___cds_wfcq_busy_wait` (include/urcu/static/wfcqueue.h) -/
@@ -216,17 +216,17 @@ def «_cds_wfcq_node_init_atomic.params» : List String := ["node"]
 
 /-- `___cds_wfcq_dequeue_with_state` (include/urcu/static/wfcqueue.h) -/
 def «___cds_wfcq_dequeue_with_state» : Stmt :=
-  block [(.assign "head" (.var "u_head")), (.ifte (.var "state") (block [(.assign "_t1" (.lit 0)), (.pstore (.var "state") (.var "_t1"))]) (.skip)), (.prim (some "_t2") (.ext "__cds_wfcq_head_const_cast") [.var "head"]), (.call (some "_t3") ["u_head", "tail"] [.var "_t2", .var "tail"] «_cds_wfcq_empty»), (.ifte (.var "_t3") (.ret (some (.null))) (.skip)), (.call (some "_t4") ["node", "blocking"] [.fieldAddr (.var "head") "node", .var "blocking"] «___cds_wfcq_node_sync_next»), (.assign "node" (.var "_t4")), (.ifte (.bin .land (.un .lnot (.var "blocking")) (.bin .eq (.var "node") (.cst "CDS_WFCQ_WOULDBLOCK" (-1)))) (.ret (some (.cst "CDS_WFCQ_WOULDBLOCK" (-1)))) (.skip)), (.prim (some "_t5") .uload [.fieldAddr (.var "node") "next", .cst "CMM_CONSUME" (1)]), (.assign "next" (.var "_t5")), (.ifte (.bin .eq (.var "next") (.null)) (block [(.call none ["node"] [.fieldAddr (.var "head") "node"] «_cds_wfcq_node_init_atomic»), (.prim (some "_t6") .ucmpxchg [.fieldAddr (.var "tail") "p", .var "node", .fieldAddr (.var "head") "node", .cst "CMM_SEQ_CST" (5), .cst "CMM_SEQ_CST" (5)]), (.ifte (.bin .eq (.var "_t6") (.var "node")) (block [(.ifte (.var "state") (block [(.assign "_t7" (.bin .bor (.pload (.var "state")) (.cst "CDS_WFCQ_STATE_LAST" (1)))), (.pstore (.var "state") (.var "_t7"))]) (.skip)), (.ret (some (.var "node")))]) (.skip)), (.call (some "_t8") ["node", "blocking"] [.var "node", .var "blocking"] «___cds_wfcq_node_sync_next»), (.assign "next" (.var "_t8")), (.ifte (.bin .land (.un .lnot (.var "blocking")) (.bin .eq (.var "next") (.cst "CDS_WFCQ_WOULDBLOCK" (-1)))) (block [(.prim none .ustore [.fieldAddr (.fieldAddr (.var "head") "node") "next", .var "node", .cst "CMM_RELAXED" (0)]), (.ret (some (.cst "CDS_WFCQ_WOULDBLOCK" (-1))))]) (.skip))]) (.skip)), (.prim none .ustore [.fieldAddr (.fieldAddr (.var "head") "node") "next", .var "next", .cst "CMM_RELAXED" (0)]), (.ret (some (.var "node")))]
+  block [(.assign "head" (.var "u_head")), (.ifte (.var "state") (block [(.assign "_t1" (.lit 0)), (.pstore (.var "state") (.var "_t1"))]) (.skip)), (.call (some "_t2") ["u_head", "tail"] [.var "head", .var "tail"] «_cds_wfcq_empty»), (.ifte (.var "_t2") (.ret (some (.null))) (.skip)), (.call (some "_t3") ["node", "blocking"] [.var "head", .var "blocking"] «___cds_wfcq_node_sync_next»), (.assign "node" (.var "_t3")), (.ifte (.bin .land (.un .lnot (.var "blocking")) (.bin .eq (.var "node") (.cst "CDS_WFCQ_WOULDBLOCK" (-1)))) (.ret (some (.cst "CDS_WFCQ_WOULDBLOCK" (-1)))) (.skip)), (.prim (some "_t4") .uload [.fieldAddr (.var "node") "next", .cst "CMM_CONSUME" (1)]), (.assign "next" (.var "_t4")), (.ifte (.bin .eq (.var "next") (.null)) (block [(.call none ["node"] [.var "head"] «_cds_wfcq_node_init_atomic»), (.prim (some "_t5") .ucmpxchg [.fieldAddr (.var "tail") "p", .var "node", .var "head", .cst "CMM_SEQ_CST" (5), .cst "CMM_SEQ_CST" (5)]), (.ifte (.bin .eq (.var "_t5") (.var "node")) (block [(.ifte (.var "state") (block [(.assign "_t6" (.bin .bor (.pload (.var "state")) (.cst "CDS_WFCQ_STATE_LAST" (1)))), (.pstore (.var "state") (.var "_t6"))]) (.skip)), (.ifte (.pload (.addrGlob "CONFIG_RCU_EMIT_LEGACY_MB")) (.prim none .mb []) (.skip)), (.ret (some (.var "node")))]) (.skip)), (.call (some "_t7") ["node", "blocking"] [.var "node", .var "blocking"] «___cds_wfcq_node_sync_next»), (.assign "next" (.var "_t7")), (.ifte (.bin .land (.un .lnot (.var "blocking")) (.bin .eq (.var "next") (.cst "CDS_WFCQ_WOULDBLOCK" (-1)))) (block [(.prim none .ustore [.fieldAddr (.var "head") "next", .var "node", .cst "CMM_RELAXED" (0)]), (.ret (some (.cst "CDS_WFCQ_WOULDBLOCK" (-1))))]) (.skip))]) (.skip)), (.prim none .ustore [.fieldAddr (.var "head") "next", .var "next", .cst "CMM_RELAXED" (0)]), (.ifte (.pload (.addrGlob "CONFIG_RCU_EMIT_LEGACY_MB")) (.prim none .mb []) (.skip)), (.ret (some (.var "node")))]
 def «___cds_wfcq_dequeue_with_state.params» : List String := ["u_head", "tail", "state", "blocking"]
 
 /-- `___cds_wfcq_splice` (include/urcu/static/wfcqueue.h) -/
 def «___cds_wfcq_splice» : Stmt :=
-  block [(.assign "dest_q_head" (.var "u_dest_q_head")), (.assign "src_q_head" (.var "u_src_q_head")), (.assign "_t1" (.lit 0)), (.pstore (.addrGlob "&attempt") (.var "_t1")), (.prim (some "_t2") (.ext "__cds_wfcq_head_const_cast") [.var "src_q_head"]), (.call (some "_t3") ["u_head", "tail"] [.var "_t2", .var "src_q_tail"] «_cds_wfcq_empty»), (.ifte (.var "_t3") (.ret (some (.cst "CDS_WFCQ_RET_SRC_EMPTY" (2)))) (.skip)), (.loop (block [(.prim (some "_t4") .uxchg [.fieldAddr (.fieldAddr (.var "src_q_head") "node") "next", .null, .cst "CMM_SEQ_CST" (5)]), (.assign "head" (.var "_t4")), (.ifte (.var "head") (.brk) (.skip)), (.prim (some "_t5") .uload [.fieldAddr (.var "src_q_tail") "p", .cst "CMM_CONSUME" (1)]), (.ifte (.bin .eq (.var "_t5") (.fieldAddr (.var "src_q_head") "node")) (.ret (some (.cst "CDS_WFCQ_RET_SRC_EMPTY" (2)))) (.skip)), (.call (some "_t6") ["attempt", "blocking"] [.addrGlob "&attempt", .var "blocking"] «___cds_wfcq_busy_wait»), (.ifte (.var "_t6") (.ret (some (.cst "CDS_WFCQ_RET_WOULDBLOCK" (-1)))) (.skip))])), (.prim (some "_t7") .uxchg [.fieldAddr (.var "src_q_tail") "p", .fieldAddr (.var "src_q_head") "node", .cst "CMM_SEQ_CST" (5)]), (.assign "tail" (.var "_t7")), (.prim (some "_t8") (.ext "__cds_wfcq_head_cast") [.var "dest_q_head"]), (.call (some "_t9") ["u_head", "tail", "new_head", "new_tail"] [.var "_t8", .var "dest_q_tail", .var "head", .var "tail"] «___cds_wfcq_append»), (.ifte (.var "_t9") (.ret (some (.cst "CDS_WFCQ_RET_DEST_NON_EMPTY" (1)))) (.ret (some (.cst "CDS_WFCQ_RET_DEST_EMPTY" (0)))))]
+  block [(.assign "dest_q_head" (.var "u_dest_q_head")), (.assign "src_q_head" (.var "u_src_q_head")), (.assign "_t1" (.lit 0)), (.pstore (.addrGlob "&attempt") (.var "_t1")), (.call (some "_t2") ["u_head", "tail"] [.var "src_q_head", .var "src_q_tail"] «_cds_wfcq_empty»), (.ifte (.var "_t2") (.ret (some (.cst "CDS_WFCQ_RET_SRC_EMPTY" (2)))) (.skip)), (.loop (block [(.prim (some "_t3") .uxchg [.fieldAddr (.var "src_q_head") "next", .null, .cst "CMM_SEQ_CST" (5)]), (.assign "head" (.var "_t3")), (.ifte (.var "head") (.brk) (.skip)), (.prim (some "_t4") .uload [.fieldAddr (.var "src_q_tail") "p", .cst "CMM_CONSUME" (1)]), (.ifte (.bin .eq (.var "_t4") (.var "src_q_head")) (.ret (some (.cst "CDS_WFCQ_RET_SRC_EMPTY" (2)))) (.skip)), (.call (some "_t5") ["attempt", "blocking"] [.addrGlob "&attempt", .var "blocking"] «___cds_wfcq_busy_wait»), (.ifte (.var "_t5") (.ret (some (.cst "CDS_WFCQ_RET_WOULDBLOCK" (-1)))) (.skip))])), (.ifte (.pload (.addrGlob "CONFIG_RCU_EMIT_LEGACY_MB")) (.prim none .mb []) (.skip)), (.prim (some "_t6") .uxchg [.fieldAddr (.var "src_q_tail") "p", .var "src_q_head", .cst "CMM_SEQ_CST" (5)]), (.assign "tail" (.var "_t6")), (.call (some "_t7") ["u_head", "tail", "new_head", "new_tail"] [.var "dest_q_head", .var "dest_q_tail", .var "head", .var "tail"] «___cds_wfcq_append»), (.ifte (.var "_t7") (.ret (some (.cst "CDS_WFCQ_RET_DEST_NON_EMPTY" (1)))) (.ret (some (.cst "CDS_WFCQ_RET_DEST_EMPTY" (0)))))]
 def «___cds_wfcq_splice.params» : List String := ["u_dest_q_head", "dest_q_tail", "u_src_q_head", "src_q_tail", "blocking"]
 
 /-- `_cds_lfq_enqueue_rcu` (include/urcu/static/rculfqueue.h) -/
 def «_cds_lfq_enqueue_rcu» : Stmt :=
-  .loop (block [(.prim (some "_t1") .uload [.fieldAddr (.var "q") "tail", .cst "CMM_CONSUME" (1)]), (.assign "tail" (.var "_t1")), (.prim (some "_t2") .ucmpxchg [.fieldAddr (.var "tail") "next", .null, .var "node", .cst "CMM_SEQ_CST" (5), .cst "CMM_SEQ_CST" (5)]), (.assign "next" (.var "_t2")), (.ifte (.bin .eq (.var "next") (.null)) (block [(.prim none .ucmpxchg [.fieldAddr (.var "q") "tail", .var "tail", .var "node", .cst "CMM_SEQ_CST" (5), .cst "CMM_SEQ_CST" (5)]), (.ret none)]) (block [(.prim none .ucmpxchg [.fieldAddr (.var "q") "tail", .var "tail", .var "next", .cst "CMM_SEQ_CST" (5), .cst "CMM_SEQ_CST" (5)]), (.cont)]))])
+  .loop (block [(.prim (some "_t1") .uload [.fieldAddr (.var "q") "tail", .cst "CMM_CONSUME" (1)]), (.assign "tail" (.var "_t1")), (.ifte (.pload (.addrGlob "CONFIG_RCU_EMIT_LEGACY_MB")) (.prim none .mb []) (.skip)), (.prim (some "_t2") .ucmpxchg [.fieldAddr (.var "tail") "next", .null, .var "node", .cst "CMM_SEQ_CST" (5), .cst "CMM_SEQ_CST" (5)]), (.assign "next" (.var "_t2")), (.ifte (.bin .eq (.var "next") (.null)) (block [(.prim none .ucmpxchg [.fieldAddr (.var "q") "tail", .var "tail", .var "node", .cst "CMM_SEQ_CST" (5), .cst "CMM_SEQ_CST" (5)]), (.ret none)]) (block [(.prim none .ucmpxchg [.fieldAddr (.var "q") "tail", .var "tail", .var "next", .cst "CMM_SEQ_CST" (5), .cst "CMM_SEQ_CST" (5)]), (.cont)]))])
 def «_cds_lfq_enqueue_rcu.params» : List String := ["q", "node"]
 
 /-- `make_dummy` (include/urcu/static/rculfqueue.h) -/
